@@ -33,7 +33,8 @@ RULE = ('exhaustive product: int declarations = size {omitted,8,16,24,32,64,+3 i
         'length max_len-1..max_len+1 with ASCII/Unicode whitespace padding; attribute level = Required/Optional x nullable x volatile x sql_default x py_check x autostrip x {None, "", " ", "x", ...}; '
         'each (declaration, value) runs through converter.validate, Entity(...), obj.attr = v, obj.set(), Entity.get(attr=v) on an in-memory SQLite database; '
         'assignments are also run against objects in different prior states (just created / loaded / loaded from a row written by raw SQL that violates the declaration) with candidates equal to the held value '
-        'but of another Python type (30 vs 30.0 vs Decimal(30) vs True) or equal to the invalid held value: the outcome must equal that of the stateless attr.validate. '
+        'but of another Python type (30 vs 30.0 vs Decimal(30) vs True) or equal to the invalid held value: the outcome must equal that of the stateless attr.validate; '
+        'raw key values offered through one and two relationship hops (Entry.profile -> Profile.account -> Account.id with min/max; a str key with max_len/autostrip) on create/assign/set/get/filter are judged against the innermost key. '
         'non-trivial = the declaration is accepted and the value set contains both accepted and rejected values; distinct = distinct (declaration, value)')
 
 P2 = lambda k: 2 ** k
@@ -360,6 +361,7 @@ def impl_runs(ctx, deep):
     # --- assignments against objects in different prior states (created / loaded / row written past the ORM with an invalid value)
     R['assign_states'], R['assign_convs'] = impl.run_state_assignments()
     R['types'] = impl.type_outcomes()
+    R['relation_keys'] = impl.run_relation_keys()
     R['dec_init'] = [((p_, s_), impl.dec_init_real(p_, s_)) for p_ in (-1, 0, 1, 2, 5, 12, 40) for s_ in (-1, 0, 1, 2, 5, 6, 12, 13)]
     R['dec_precision_accepts'] = impl.dec_precision_probe()
     _cache[key] = R
@@ -636,6 +638,16 @@ def search(ctx, deep):
         if (o[0] == 'ok') != want:
             fail('unlisted:decimal-declaration:precision=%s:scale=%s' % (sgn(p_), sgn(s_)), 'Decimal(precision=%d, scale=%d) is %s' % (p_, s_, 'accepted' if o[0] == 'ok' else 'refused'),
                  {'type': 'dec-init', 'p': p_, 's': s_})
+    # raw key values offered through one / two relationship hops: judged as the innermost key attribute's validate judges them
+    for r in R['relation_keys']:
+        evals += 1
+        if relation_key_bad(r):
+            kind = 'accepted-where-validate-rejects' if r['validate'][0] == 'err' else ('rejected-where-validate-accepts' if r['got'][0] == 'err' else 'not-normalised')
+            fail('unlisted:relation-key:%s:hops=%d:%s:%s' % (r['key'], r['hops'], r['route'], kind),
+                 'raw key value %s offered through %d relationship hop(s) on %s: outcome %r, but the key attribute (%s) validates it as %r' % (
+                     r['value'], r['hops'], r['route'], r['got'], 'Account.id = PrimaryKey(int, min=0, max=1000)' if r['key'] == 'int' else 'Tag.code = PrimaryKey(str, 4)', r['validate']),
+                 {'type': 'relation-key', 'key': r['key'], 'hops': r['hops'], 'route': r['route'], 'value': r['value']})
+        else: nontriv.add(('relkey', r['key'], r['hops'], r['route'], r['value']))
     for r in R['assign_states']:
         evals += 1
         if r['assign'] != r['validate']:
@@ -657,6 +669,13 @@ TYPE_ALLOWED = {'CBool': {'TgBool', 'TgInt'}, 'CStr': {'TgStrNum', 'TgStrText'},
                 'CDatetime': {'TgDatetime', 'TgStrNum', 'TgStrText'}, 'CUuid': {'TgUuid', 'TgBytes', 'TgInt', 'TgBool', 'TgStrNum', 'TgStrText'}}
 TYPE_CORE = {'CBool': {'TgBool'}, 'CStr': {'TgStrNum', 'TgStrText'}, 'CInt': {'TgInt'}, 'CReal': {'TgFloat'}, 'CDecimal': {'TgDecimal'}, 'CBlob': {'TgBytes'}, 'CDate': {'TgDate'},
              'CTime': {'TgTime'}, 'CTimedelta': {'TgTimedelta'}, 'CDatetime': {'TgDatetime'}, 'CUuid': {'TgUuid'}}
+
+
+def relation_key_bad(r):
+    g, v = r['got'], r['validate']
+    if v[0] == 'err': return g[0] != 'err'
+    if g[0] == 'err': return g[1] in (1, 2) and r['route'] != 'index'       # a valid key may be absent (ObjectNotFound), but must not fail validation
+    return g[2] not in ('None', v[2])                                          # found / stored: under the normalised key value
 
 
 def ref_attr(d, st, v):
@@ -748,6 +767,12 @@ def replay(ctx, data):
         o = impl.dec_init_real(data['p'], data['s'])
         want = 0 < data['s'] <= data['p']
         return Failure('unlisted:decimal-declaration:replay', 'Decimal(%d, %d): %r' % (data['p'], data['s'], o), data) if (o[0] == 'ok') != want else None
+    if t == 'relation-key':
+        for r in impl.run_relation_keys():
+            if (r['key'], r['hops'], r['route'], r['value']) == (data['key'], data['hops'], data['route'], data['value']) and relation_key_bad(r):
+                return Failure('unlisted:relation-key:%s:hops=%d:%s:replay' % (r['key'], r['hops'], r['route']),
+                               'raw key value %s through %d hop(s) on %s: outcome %r, key attribute validates it as %r' % (r['value'], r['hops'], r['route'], r['got'], r['validate']), data)
+        return None
     if t == 'assign-state':
         out, convs = impl.run_state_assignments()
         for r in out:
